@@ -52,6 +52,11 @@ func At(ll orb.Point, z Zoom) Tile {
 		Z: z,
 	}
 
+	// a longitude of 180 (or one that rounds onto it) belongs to the last column
+	if max := uint32(1) << uint32(z); max != 0 && t.X >= max {
+		t.X = max - 1
+	}
+
 	return t
 }
 
